@@ -30,6 +30,19 @@ Theorem C13_answer_ok_gen_unique : forall cur vals e ps r,
   typed e ps -> (answer_ok_gen cur vals e ps r = true <-> r = validate cur vals e ps).
 Proof. exact answer_ok_gen_unique. Qed.
 
+(* a Reader that returns nil validators (outside its contract): unchanged up to the creator lookup,
+   which is then a nil dereference ([None]) *)
+Theorem C13_validate_opt_some : forall cur vals e ps,
+  validate_opt cur (Some vals) e ps = Some (validate cur vals e ps).
+Proof. exact validate_opt_some. Qed.
+Theorem C13_validate_opt_none : forall cur e ps,
+  validate_opt cur None e ps =
+    match basic_validate e with
+    | Err k => Some (Err k)
+    | Ok => if e_epoch e =? cur then None else Some (Err NotRelevant)
+    end.
+Proof. exact validate_opt_none. Qed.
+
 (* first-error: error k is returned exactly when clause k is violated and all earlier clauses hold *)
 Theorem C13_validate_err_iff_blames : forall cur vals e ps k,
   typed e ps -> parents_of e ps ->
@@ -102,6 +115,8 @@ Proof. vm_compute. repeat split. Qed.
 Print Assumptions C13_validate_ok_iff_wf.
 Print Assumptions C13_validate_ok_iff_general.
 Print Assumptions C13_answer_ok_gen_unique.
+Print Assumptions C13_validate_opt_some.
+Print Assumptions C13_validate_opt_none.
 Print Assumptions C13_validate_err_iff_blames.
 Print Assumptions C13_answer_ok_unique.
 Print Assumptions C13_basic_ok_iff.
